@@ -9,5 +9,5 @@ import (
 
 func TestSim(t *testing.T) {
 	StartWatchdog(8 * time.Second)
-	simrun.Main(t, map[string]simrun.World{"C07x": World("C07x")})
+	simrun.Main(t, map[string]simrun.World{"C07": World("C07")})
 }
